@@ -43,6 +43,12 @@ type Variant struct {
 	// Single: the program declares singletons whose values are the compiler's defaults and functions that
 	// read and change them (through extraction parameters and directly) (service3.go).
 	Single bool `json:"single,omitempty"`
+	// Fresh: the program has the family of functions about values that belong to one call: literals that are
+	// evaluated again by every call and changed in place, parameters changed in place (service4.go).
+	Fresh bool `json:"fresh,omitempty"`
+	// FreshAny: additionally the function with an any-object parameter changed in place (see arg_any; never
+	// generated, a genuine defect of the unchanged tree).
+	FreshAny bool `json:"fresh_any,omitempty"`
 }
 
 // state is the model of the globals.
@@ -1099,6 +1105,7 @@ fn fanout_fail() {
 	addExitSpecs(add)
 	addOutSpecs(add)
 	addSingletonSpecs(add)
+	addFreshSpecs(add)
 	return out
 }
 
@@ -1153,6 +1160,10 @@ func (v Variant) has(feature string) bool {
 		return v.Out
 	case "single":
 		return v.Single
+	case "fresh":
+		return v.Fresh
+	case "fresh-any":
+		return v.FreshAny
 	}
 	return false
 }
